@@ -80,6 +80,11 @@ type c19Pos struct {
 }
 
 var c19pos [4]avro.Codec
+var c19posRef [4]*refavro.Schema
+
+func c19posJSON(ty string) string {
+	return `{"type":"record","name":"pos","fields":[{"name":"p1","type":["null",` + ty + `]},{"name":"p2","type":["null",` + ty + `]},{"name":"m","type":{"type":"map","values":` + ty + `}},{"name":"a","type":{"type":"array","items":["null",` + ty + `]}},{"name":"s","type":{"type":"array","items":` + ty + `}},{"name":"t","type":` + ty + `}]}`
+}
 
 func c19checkPositions(c *core.Ctx, r *rand.Rand) {
 	types := []string{`{"type":"int","logicalType":"date"}`, `{"type":"long","logicalType":"timestamp-millis"}`, `{"type":"long","logicalType":"timestamp-micros"}`, `"long"`}
@@ -87,9 +92,12 @@ func c19checkPositions(c *core.Ctx, r *rand.Rand) {
 	mults := []int64{0, 1e6, 1e3, 1}
 	for k, ty := range types {
 		if c19pos[k] == nil {
-			s, err := avro.SchemaFromString(`{"type":"record","name":"pos","fields":[{"name":"p1","type":["null",` + ty + `]},{"name":"p2","type":["null",` + ty + `]},{"name":"m","type":{"type":"map","values":` + ty + `}},{"name":"a","type":{"type":"array","items":["null",` + ty + `]}},{"name":"s","type":{"type":"array","items":` + ty + `}},{"name":"t","type":` + ty + `}]}`)
+			s, err := avro.SchemaFromString(c19posJSON(ty))
 			if err == nil {
 				c19pos[k], err = s.Codec(c19Pos{})
+			}
+			if err == nil {
+				c19posRef[k], err = refavro.ParseSchema([]byte(c19posJSON(ty)))
 			}
 			if err != nil {
 				c.Violate("build", fmt.Sprintf("%s in pointer/map/array positions: %v", names[k], err), nil)
@@ -170,11 +178,18 @@ func c19checkPositions(c *core.Ctx, r *rand.Rand) {
 				return
 			}
 		}
-		c19rb.ExtractResourceBank().Close()
 		c19wb.Reset()
 		c19pos[k].Write(c19wb, unsafe.Pointer(&rec))
-		if string(c19wb.Bytes()) != string(enc) {
-			c.Violate("long-encode", fmt.Sprintf("%s in pointer/map/array positions: wrote %x, the integers that decode back are %x", names[k], c19wb.Bytes(), enc), nil)
+		c19rb.ExtractResourceBank().Close() // only now: rec points into the bank
+		// judged as data (array/map block framing is the writer's choice): a reference reader must see the same datum
+		wantD, e1 := refavro.DecodeAll(c19posRef[k], enc, 1)
+		gotD, e2 := refavro.DecodeAll(c19posRef[k], c19wb.Bytes(), 1)
+		if e1 != nil {
+			c.Violate("harness", "reference decode of the input: "+e1.Error(), nil)
+			return
+		}
+		if e2 != nil || refavro.Render(gotD[0]) != refavro.Render(wantD[0]) {
+			c.Violate("long-encode", fmt.Sprintf("%s in pointer/map/array positions: wrote %x (reference reader: err=%v), the integers that decode back are %s", names[k], c19wb.Bytes(), e2, refavro.Render(wantD[0])), nil)
 			return
 		}
 		c.Count("position-records."+names[k], 1)
@@ -202,6 +217,9 @@ func c19setup(c *core.Ctx) {
 		{"timestamp-millis", `{"type":"long","logicalType":"timestamp-millis"}`, 1e6},
 		{"timestamp-micros", `{"type":"long","logicalType":"timestamp-micros"}`, 1e3},
 		{"plain-long", `"long"`, 1},
+		// a logical type the implementation does not know is ignored (Avro specification): the field is a plain long
+		{"plain-long/unknown-logical-type", `{"type":"long","logicalType":"x-vendor-instant"}`, 1},
+		{"plain-long/object-form", `{"type":"long"}`, 1},
 	} {
 		s, err := avro.SchemaFromString(`{"type":"record","name":"r","fields":[{"name":"t","type":` + d.typ + `}]}`)
 		if err != nil {
@@ -328,7 +346,7 @@ func runC19(c *core.Ctx, i int) {
 	if c19rb == nil {
 		c19setup(c)
 	}
-	if len(c19codecs) != 4 {
+	if len(c19codecs) != 6 {
 		return
 	}
 	r := c.Rand(i, 0)
@@ -387,6 +405,16 @@ func runC19(c *core.Ctx, i int) {
 				lim := math.MaxInt64 / cc.mult
 				for _, b := range []int64{lim, lim - 1, -lim, -lim + 1, 0, -1, 1} {
 					c19checkLong(c, cc, b)
+				}
+				// the integers the zero time.Time turns into under each unit (and their neighbours) are ordinary values
+				var zt time.Time
+				for _, z := range []int64{zt.UnixNano(), zt.UnixMicro(), zt.UnixMilli(), zt.Unix(), zt.Unix() / 86400} {
+					for d := int64(-1); d <= 1; d++ {
+						if v := z + d; v <= lim && v >= -lim {
+							c19checkLong(c, cc, v)
+							c.Count("zero-time-derived-values", 1)
+						}
+					}
 				}
 			}
 			lim := math.MaxInt64 / cc.mult
